@@ -1106,9 +1106,64 @@ def explore_c18(rng, tier, res, deep=False):
                 )
         res.count(f"limit-{lim}", len(cases))
     deepen_in_place(rng, tier, res)
+    limit_changed_between_applications(res)
     import checks_nd
 
     checks_nd.explore_c18_nd(rng, tier, res, deep)
+
+
+def limit_changed_between_applications(res):
+    """The bound is the one configured on the environment WHEN the segment is applied: an environment that has already
+    applied descendant segments gets another max_recursion_depth (instance attribute, then class attribute; lowered,
+    then raised); queries compiled before and after the change alike follow the new bound; both modes."""
+    def nested(d):
+        v = {"a": 1}
+        for _ in range(d - 1):
+            v = {"a": v}
+        return v
+
+    def outcome(fn):
+        try:
+            return "ok %d" % len(fn())
+        except real.jp.JSONPathRecursionError:
+            return "rec"
+        except RecursionError:
+            return "PY:RecursionError"
+        except Exception as exc:  # noqa: BLE001
+            return "PY:" + type(exc).__name__
+
+    for nd in (False, True):
+        for how in ("instance", "class"):
+            for q in ("$..a", "$.a..a", "$[?@..a]", "$[?count(@..*) > 0]"):
+                cls = type("Cfg", (real.jp.JSONPathEnvironment,), {"max_recursion_depth": 6, "nondeterministic": nd})
+                env = cls()
+                old = env.compile(q)
+                steps = [(6, 5, None)]
+                for new_lim in (3, 40, 2, 6):
+                    steps.append((new_lim, new_lim - 1, new_lim))
+                    steps.append((new_lim, new_lim + 3, None))
+                for lim, depth, set_to in steps:
+                    if set_to is not None:
+                        if how == "instance":
+                            env.max_recursion_depth = set_to
+                        else:
+                            cls.max_recursion_depth = set_to
+                    doc = nested(depth)
+                    # '$[?@..a]' and '$.a..a' apply the segment one level below the root
+                    eff = depth - 1 if q != "$..a" else depth
+                    want_ok = eff <= lim
+                    for label, fn in (("query compiled before the change", lambda: old.find(doc)), ("fresh compile", lambda: env.find(q, doc))):
+                        res.evaluations += 1
+                        got = outcome(fn)
+                        res.nontrivial.add(("limit-change", nd, how, q, lim, depth, label))
+                        if got.startswith("ok") != want_ok or (not want_ok and got != "rec"):
+                            res.violations.append({"property": "C18", "query": q, "document": doc, "observed": got,
+                                                   "expected": "full result" if want_ok else "JSONPathRecursionError",
+                                                   "env": {"nondeterministic": nd, "max_recursion_depth": lim, "set_as": how + " attribute, after the environment had applied descendant segments under another limit"},
+                                                   "history": "environment created with limit 6; descendant queries applied; limit set to %s (then to others); %s" % (lim, label),
+                                                   "what": "the configured max_recursion_depth in force when the query is applied is not the bound that is used"})
+                            break
+    res.count("limit-changed-between-applications")
 
 
 def deepen_in_place(rng, tier, res):
